@@ -65,7 +65,7 @@ fn snap_of(pk: &Peek, errs: &mut Vec<String>, cfg: &Cfg) -> Snap {
     else if !pk.wo.is_empty() { errs.push("write-order nodes without time_to_live".into()); }
     for k in &pk.wo { if !pk.map.iter().any(|e| e.key == *k) { errs.push(format!("orphan write-order node for key {}", k)); } }
     if pk.pending_reads != 0 || pk.pending_writes != 0 { errs.push(format!("{} read / {} write records still queued after sync()", pk.pending_reads, pk.pending_writes)); }
-    if pk.map.iter().any(|e| e.dirty) { errs.push("an entry is still marked dirty after sync()".into()); }
+    if pk.map.iter().any(|e| e.dirty) { errs.push("DIRTY an entry is still marked dirty after sync() (maintenance will skip it when it evicts or expires)".into()); }
     errs.extend(pk.errs.iter().cloned());
     Snap { p, wo: pk.wo.clone(), ec: pk.ec, ws: pk.ws, va: pk.va, enabled: pk.enabled, freqs: pk.freqs.clone() }
 }
@@ -190,7 +190,10 @@ pub struct Finding { pub tags: &'static str, pub what: String }
 fn classify(op: Op, cfg: &Cfg, exp: &Snap, got: &Snap, exp_res: &str, got_res: &str, errs: &[String]) -> Option<Finding> {
     let observer = matches!(op, Op::Contains(_) | Op::Iter);
     let expiry = cfg.ttl.is_some() || cfg.tti.is_some();
-    if !errs.is_empty() { return Some(Finding { tags: "C11,C08,C10", what: format!("list/map structure after maintenance: {}", errs.join("; ")) }); }
+    if !errs.is_empty() {
+        let dirty_only = errs.iter().all(|e| e.starts_with("DIRTY"));
+        return Some(Finding { tags: if dirty_only { "C12,C05,C06,C11" } else { "C11,C08,C10" }, what: format!("list/map structure after maintenance: {}", errs.join("; ")) });
+    }
     if exp_res != got_res { return Some(Finding { tags: if expiry { "C01,C05,C06,C03,C07" } else { "C01,C03,C07" }, what: format!("result of {:?}: expected {} got {}", op, exp_res, got_res) }); }
     if exp.va != got.va { return Some(Finding { tags: "C07", what: format!("invalidate_all watermark after {:?} differs from the specification", op) }); }
     let ek: Vec<u8> = { let mut v: Vec<u8> = exp.p.iter().map(|e| e.key).collect(); v.sort(); v };
@@ -300,7 +303,15 @@ pub fn run_history_b(cfg: Cfg, ops: &[Op]) -> Option<(usize, Finding)> {
         let legit = |k: u8, refm: &Vec<Option<(u8, u32, Instant, Instant)>>| -> Option<u8> {
             match refm[k as usize] { Some((v, _w, tm, ta)) if !hidden(&cfg, va, ta, tm, now) => Some(v), _ => None }
         };
+        let before = if matches!(*op, Op::Contains(_) | Op::Iter) { Some(peek(&c.base)) } else { None };
         let got = exec(&c, &mock, *op);
+        if let Some(b) = before {
+            // C15: contains_key and iteration are pure observations: neither the physical state nor the queued maintenance changes
+            let a = peek(&c.base);
+            let same = a.p == b.p && a.wo == b.wo && a.ec == b.ec && a.ws == b.ws && a.freqs == b.freqs && a.pending_reads == b.pending_reads && a.pending_writes == b.pending_writes
+                && a.map.len() == b.map.len() && a.map.iter().zip(b.map.iter()).all(|(x, y)| x.key == y.key && x.value == y.value && x.weight == y.weight && x.ta == y.ta && x.tm == y.tm && x.admitted == y.admitted && x.dirty == y.dirty);
+            if !same { return Some((i, Finding { tags: "C15", what: format!("{:?} changed the state of the cache or its queued maintenance ({} -> {} queued reads, {} -> {} queued writes)", op, b.pending_reads, a.pending_reads, b.pending_writes, a.pending_writes) })); }
+        }
         match *op {
             Op::Insert(k, v) => {
                 refm[k as usize] = Some((v, weight_of(&cfg, v), now, now));
